@@ -1,0 +1,100 @@
+//go:build verif
+
+package m
+
+import (
+	"fmt"
+	"os"
+	"strings"
+	"sync"
+)
+
+// Verification hooks: only compiled with the "verif" build tag.
+//
+// When the environment variable VERIF_SWITCH_TRACE names a file, every call of
+// BuildBlocks, NextRotateSwitchBlock (successful) and TransformToReturnBlock in
+// this process is appended to it as one JSON line
+//
+//	{"ev":"build","n":N,"f":[..],"r":[..],"err":B,"fwd":[..],"ret":[..]}
+//	{"ev":"rotate","before":[..],"recv":N,"label":N,"after":[..]}
+//	{"ev":"reverse","before":[..],"after":[..]}
+//
+// so that the repository's own tests can be validated against the
+// specification without being edited.
+
+var (
+	verifSwitchMu   sync.Mutex
+	verifSwitchFile *os.File
+)
+
+func init() {
+	path := os.Getenv("VERIF_SWITCH_TRACE")
+	if path == "" {
+		return
+	}
+	f, err := os.OpenFile(path, os.O_APPEND|os.O_CREATE|os.O_WRONLY, 0o644)
+	if err != nil {
+		return
+	}
+	verifSwitchFile = f
+}
+
+func verifInts(b []byte) string {
+	var sb strings.Builder
+	sb.WriteByte('[')
+	for i, x := range b {
+		if i > 0 {
+			sb.WriteByte(',')
+		}
+		fmt.Fprintf(&sb, "%d", x)
+	}
+	sb.WriteByte(']')
+	return sb.String()
+}
+
+func verifSwitchCopy(b []byte) []byte {
+	if verifSwitchFile == nil {
+		return nil
+	}
+	return append([]byte{}, b...)
+}
+
+func verifSwitchRotate(before, after []byte, recv, next SwitchLabel) {
+	if verifSwitchFile == nil {
+		return
+	}
+	verifSwitchMu.Lock()
+	defer verifSwitchMu.Unlock()
+	fmt.Fprintf(verifSwitchFile, "{\"ev\":\"rotate\",\"before\":%s,\"recv\":%d,\"label\":%d,\"after\":%s}\n", verifInts(before), recv, next, verifInts(after))
+}
+
+func verifSwitchReverse(before, after []byte) {
+	if verifSwitchFile == nil {
+		return
+	}
+	verifSwitchMu.Lock()
+	defer verifSwitchMu.Unlock()
+	fmt.Fprintf(verifSwitchFile, "{\"ev\":\"reverse\",\"before\":%s,\"after\":%s}\n", verifInts(before), verifInts(after))
+}
+
+func verifSwitchBuild(sp *SwitchPath, err error) {
+	if verifSwitchFile == nil || len(sp.Hops) == 0 {
+		return
+	}
+	var f, r strings.Builder
+	for i, h := range sp.Hops {
+		if i > 0 {
+			f.WriteByte(',')
+			r.WriteByte(',')
+		}
+		fmt.Fprintf(&f, "%d", h.ForwardLabel)
+		fmt.Fprintf(&r, "%d", h.ReturnLabel)
+	}
+	verifSwitchMu.Lock()
+	defer verifSwitchMu.Unlock()
+	if err != nil {
+		fmt.Fprintf(verifSwitchFile, "{\"ev\":\"build\",\"n\":%d,\"f\":[%s],\"r\":[%s],\"err\":true,\"fwd\":[],\"ret\":[]}\n", len(sp.Hops), f.String(), r.String())
+		return
+	}
+	fmt.Fprintf(verifSwitchFile, "{\"ev\":\"build\",\"n\":%d,\"f\":[%s],\"r\":[%s],\"err\":false,\"fwd\":%s,\"ret\":%s}\n", len(sp.Hops), f.String(), r.String(), verifInts(sp.ForwardBlock), verifInts(sp.ReturnBlock))
+}
